@@ -1,8 +1,13 @@
 (* C16 wire functions.
-   input : VL [VL toks; VZ env; VZ ws]
+   input : VL [VL toks; VZ env; VZ ws] or VL [VL toks; VZ env; VZ ws; VZ kind]
            toks: VZ codes, 0..63 = primitive atom n, 100 = &&, 101 = ||, 102 = !, 103 = (, 104 = )
            env : bit n = truth value of atom n on the request the harness builds
            ws  : whitespace/flavour seed for the harness' rendering (ignored by the model)
+           kind: shape of the request object: 0 (or absent) = complete HTTP request; 1 = session-only request
+                 (HttpRequest == nil, as built by mod_key_log / TLS-phase callbacks); 2 = Session == nil; 3 = nil request.
+           atoms 0..11 are request primitives (header / query / cookie families): false on an incomplete request
+           (PrimitiveCond.Match); atom 12 = default_t() (true on every request); atom 13 = ses_tls_client_auth()
+           (bit 13 of env on requests that have a session, false otherwise).
    output: VZ 0/1 = condition.Build(text).Match(req), or VErr 1 when Build returns an error. *)
 From Coq Require Import List ZArith Bool.
 From Bfe Require Import lib.Val model.CondParse.
@@ -17,13 +22,22 @@ Definition Z_of_tok (k : tok) : Z :=
   match k with TAtom n => Z.of_nat n | TAnd => 100 | TOr => 101 | TNot => 102 | TL => 103 | TR => 104 end.
 Definition env_of (m : Z) (n : nat) : bool := Z.testbit m (Z.of_nat n).
 
+(* truth values of the atoms on a request of the given shape *)
+Definition bit (n : Z) : Z := Z.shiftl 1 n.
+Definition eff_env (kind env : Z) : Z :=
+  if kind =? 0 then Z.lor env (bit 12)
+  else if kind =? 1 then Z.lor (Z.land env (bit 13)) (bit 12)
+  else bit 12.
+
 Definition decode_C16 (i : val) : option (list tok * Z) :=
-  match i with
-  | VL [VL toks; VZ env; VZ _] =>
+  let dec toks env kind :=
     match all_some (map (fun v => match v with VZ z => tok_of_Z z | _ => None end) toks) with
-    | Some ts => Some (ts, env)
+    | Some ts => if (0 <=? kind) && (kind <=? 3) then Some (ts, eff_env kind env) else None
     | None => None
-    end
+    end in
+  match i with
+  | VL [VL toks; VZ env; VZ _] => dec toks env 0
+  | VL [VL toks; VZ env; VZ _; VZ kind] => dec toks env kind
   | _ => None
   end.
 
